@@ -101,8 +101,28 @@ import pathlib
 
 
 @contextlib.contextmanager
-def failing_source(fault, d):
-    """Make reading one source file fail: at open, or at its n-th read."""
+def failing_source(fault, d, target=None, fired=None):
+    """Make reading one source file fail: at open, or at its n-th read; or make the n-th write into the restore
+    target fail (disk full)."""
+    if fault is not None and fault[0] == 'target-write':
+        from mc.fsteps import FSteps
+        cnt = {'w': 0}
+
+        def wstep(label, path):
+            if label in ('write', 'os-write'):
+                cnt['w'] += 1
+                if cnt['w'] == fault[1]:
+                    if fired is not None:
+                        fired.append(path)
+                    raise InjectedOS(28, 'No space left on device (injected)')
+
+        fs = FSteps(target, wstep, reads=False, torn=False)
+        fs.install()
+        try:
+            yield
+        finally:
+            fs.uninstall()
+        return
     if fault is None or not str(fault[0]).startswith('source-'):
         yield
         return
@@ -193,7 +213,7 @@ def run_c09(params, prefix):
     W.set_clock()
     W.set_random('c09x')
 
-    if fault is not None and not str(fault[0]).startswith('source-'):
+    if fault is not None and not str(fault[0]).startswith(('source-', 'target-')):
         fkind, fnth = fault
         seen = {'n': 0}
 
@@ -216,7 +236,8 @@ def run_c09(params, prefix):
                 res = await repo.restore(path=target, rate_limit=params.get('rate'))
         return res
 
-    with failing_source(fault, d):
+    fired = []
+    with failing_source(fault, d, target, fired):
         x = dsched.run_one(lambda loop, s: go(), prefix, horizon=params.get('horizon', 6000),
                            fp_hook=store.fp, collect_states=True, want_env=(be == 'async'))
     repo = holder.get('repo')
@@ -258,7 +279,14 @@ def run_c09(params, prefix):
         if fault is None or not isinstance(x.exc, (Injected, InjectedOS)):
             bad('exception', exc=ename, msg=repr(x.exc)[:300])
     else:
-        if fault is not None:
+        if fault is not None and fault[0] == 'target-write':
+            # a write into the target failed (if it was reached): the restore must not report success with wrong content
+            want = {W.restore_path(target, str(d / k)): v for k, v in TREES[tree].items()}
+            got = {p_: v[0] for p_, v in W.read_tree(target).items()}
+            outcome = ('OK-after-write-fault', bool(fired), got == want)
+            if fired and got != want:
+                bad('fault-swallowed', detail='restore returned normally although a write into the target failed; content differs')
+        elif fault is not None:
             # the failing call may legitimately never be reached only if fewer calls happen; report
             outcome = ('OK-nofault',) if True else None
             bad('fault-swallowed')
@@ -340,6 +368,10 @@ def harnesses(t):
                 hs.append({'kind': 'snapshot', 'tree': 'snapA', 'N': N, 'be': be, 'fault': ('source-read', 1)})
                 hs.append({'kind': 'snapshot', 'tree': 'snapA', 'N': N, 'be': be, 'fault': ('source-read', 2)})
             hs.append({'kind': 'restore', 'tree': 'restB', 'N': N, 'be': be, 'fault': ('download_stream', 2)})
+            if be == 'plain':
+                # the disk fills up while a part of a file is written
+                hs.append({'kind': 'restore', 'tree': 'restB', 'N': N, 'be': be, 'fault': ('target-write', 1)})
+                hs.append({'kind': 'restore', 'tree': 'restB', 'N': N, 'be': be, 'fault': ('target-write', 3)})
     return hs
 
 
